@@ -167,6 +167,7 @@ fn fam_parse(ctx: &Ctx) {
             cs.l.nontrivial += (len > 1) as u64;
             judge(&mut cs, "U64::from_str_radix_vartime", &s, radix, Some(1), None, guard(|| res_u(Uint::<1>::from_str_radix_vartime(&s, radix))));
             judge(&mut cs, "U128::from_str_radix_vartime", &s, radix, Some(2), None, guard(|| res_u(Uint::<2>::from_str_radix_vartime(&s, radix))));
+            judge(&mut cs, "U64:num_traits::Num::from_str_radix", &s, radix, Some(1), None, guard(|| res_u(<Uint<1> as num_traits::Num>::from_str_radix(&s, radix))));
             judge(&mut cs, "Boxed::from_str_radix_vartime", &s, radix, None, None, guard(|| res_b(BoxedUint::from_str_radix_vartime(&s, radix))));
             judge(&mut cs, "Boxed::from_str_radix_with_precision_vartime(64)", &s, radix, Some(1), Some(64), guard(|| res_b(BoxedUint::from_str_radix_with_precision_vartime(&s, radix, 64))));
             judge(&mut cs, "Boxed::from_str_radix_with_precision_vartime(7)", &s, radix, Some(1), Some(7), guard(|| res_b(BoxedUint::from_str_radix_with_precision_vartime(&s, radix, 7))));
@@ -247,6 +248,8 @@ fn fam_format<const N: usize>(ctx: &Ctx) {
         for s in decorate(&canon) {
             cs.group();
             judge(&mut cs, "Uint::from_str_radix_vartime", &s, radix, Some(N), None, guard(|| res_u(Uint::<N>::from_str_radix_vartime(&s, radix))));
+            // the num_traits::Num route must be the same decoder (same group: also a C15 pair)
+            judge(&mut cs, "Uint:num_traits::Num::from_str_radix", &s, radix, Some(N), None, guard(|| res_u(<Uint<N> as num_traits::Num>::from_str_radix(&s, radix))));
         }
         // overflow boundary: 2^BITS and 2^BITS + x written plainly and decorated must be InputSize
         if i % 7 == 0 {
